@@ -694,5 +694,7 @@ def run(repo, check):
     from sa.rules import c04
     share(check, repo, c04.rule_r3, 'C12.R10', 'a decreased (down to zero) or increased declared section length: shorter than the content is refused with a library error, '
           'longer is skipped (shared with C04.R3, decoder part)', keep=lambda f: f.key.startswith('Decoder.'), args=('quick',))
+    from sa.rules import c20 as _c20
+    share(check, repo, _c20.rule_r6, 'C12.R14', 'whatever shape a message of data category 11 has, the definition processor fails with the library error only (shared with C20.R6)')
     check.assumptions = ['implicit exceptions are decided only where a fold executes the code (R5, R7, R8: template walk, template construction, scanner); elsewhere only explicit raise/assert sites are decided',
                          'bitstring raises a subclass of bitstring.Error on a short read of a sized format (uint:n, bytes:n, bin:n) and ValueError on a short read of the unsized bool format (bitstring 4.x, confirmed by reading its source and by experiment)']
